@@ -111,8 +111,8 @@ def run(rep, tier, root=None):
         lv = {}
         for l in I2.loop_log:
             if l[0] == g.fq and isinstance(l[2], Rat) and isinstance(l[2].single_atom(), Sym):
-                lv[l[2].single_atom().name.split("@")[0]] = l[2]
-        if set(lv) != {"x", "y"} and len(lv) != 2:
+                lv[l[2].single_atom().name] = l[2]
+        if len(lv) != 2:
             rep.unknown("M2.selection", tag, "cannot identify the two cell loops", g.where())
             continue
         names = sorted(lv, key=lambda n: int(lv[n].single_atom().name.split("@")[1]))
